@@ -26,7 +26,6 @@ LModSmall(a, k) == LModAt(a, k, Len(a), 0)
 
 Ten12 == <<4096, 10570, 931>>     \* 10^12 = 931*2^30 + 10570*2^15 + 4096
 
-Ten18 == <<0, 20168, 23246, 28421>>   \* 10^18
 INSTANCE Gauge WITH Add <- LAdd, Mul <- LMul, Le <- LLe, DivS <- LDivSmall, ModS <- LModSmall, OfInt <- LOfInt,
-                    Exact <- FALSE, Tol <- Ten12, E18 <- Ten18
+                    Exact <- FALSE, Tol <- Ten12
 =============================================================================
